@@ -50,4 +50,18 @@ TEXT = {
         "note": COMMON_NOTE,
         "technique": "Lean 4 proof by case analysis on the option gates + model/code differential replay",
     },
+    "C09": {
+        "level": "Proof, symbolic over all lengths (no enumeration): the CLZ-narrowed binary search of "
+                 "FuzzyHashLengthEncoding::new returns, for every n < 2^32 and every configuration (incl. feature "
+                 "unsafe: the three invariant!() conditions hold in every leading-zero class), Some(least i with "
+                 "n <= topval[i]) iff n <= 4224281216, else None (encode_eq_least, encode_some_iff); the code is "
+                 "monotone (lengthCode_mono); range(c) contains exactly the lengths encoding to c (range_spec), "
+                 "ranges 0..169 tile 0..=MAX (ranges_tile), codes >= 170 have no range (range_none_iff); extracted "
+                 "table = reference (C01.tables). Correspondence is COMPLETE for new(): the probe evaluates all "
+                 "2^32 lengths and the break points are compared with the reference; all 256 codes for range/"
+                 "is_valid.",
+        "note": COMMON_NOTE + " binary_search by contract.",
+        "technique": "Lean 4 proof (table facts by kernel decide per leading-zero class + findIdx lemmas) + "
+                     "exhaustive 2^32 sweep of the compiled function",
+    },
 }
